@@ -15,7 +15,11 @@ pub open spec fn v1_state_known(s: Seq<char>) -> bool {
 ///  * it carries neither secureChannelEnabled (2.0) nor secureChannelState (1.0), or
 ///  * it carries a secureChannelState that is not one of the three 1.0 values, or
 ///  * it says version 1.0 without secureChannelState, or version 2.0 without secureChannelEnabled.
+///  * (protocol constants, named by the validator's own messages) its authorizationScheme is not 'Azure-HMAC-SHA256' - the only
+///    scheme the agent signs with (C04) - or its keyDeliveryMethod is neither 'http' nor 'vtpm'.
 pub open spec fn valid_status(st: KeyStatus) -> bool {
+    &&& st.authorizationScheme@ == "Azure-HMAC-SHA256"@
+    &&& (st.keyDeliveryMethod@ == "http"@ || st.keyDeliveryMethod@ == "vtpm"@)
     &&& !(st.secureChannelEnabled is None && st.secureChannelState is None)
     &&& (st.secureChannelState matches Some(s) ==> v1_state_known(lower(s@)))
     &&& !(st.secureChannelState is None && st.version@ == "1.0"@)
